@@ -27,6 +27,9 @@ var verifHarnesses = map[string]func(){
 	"VerifParse":         VerifParse,
 	"VerifFormat":        VerifFormat,
 	"VerifFormatFlags":   VerifFormatFlags,
+	"VerifComposite":     VerifComposite,
+	"VerifCompose":       VerifCompose,
+	"VerifMisc":          VerifMisc,
 	"VerifDivInt":        VerifDivInt,
 	"VerifCmp":           VerifCmp,
 	"VerifQuantize":      VerifQuantize,
